@@ -1162,6 +1162,39 @@ def ref_protocol(an, rep):
     return R
 
 
+def _unclone(t):
+    t = strip_refs(t)
+    while isinstance(t, tuple) and t[0] == "call" and t[3]:
+        last = t[1].split("::")[-1]
+        if last in ("clone", "to_owned", "to_string", "borrow", "as_str"):
+            t = strip_refs(t[3][0])
+        elif last == "key" and "Entry" in t[1]:
+            # entry.key() is the key the entry was opened with
+            e = [x for x in mir.walk_expr(t[3][0]) if x[0] == "call" and x[1].endswith("::entry") and len(x[3]) == 2]
+            if not e:
+                break
+            t = strip_refs(e[0][3][1])
+        else:
+            break
+    return guards.norm(t)
+
+
+def _same_entry(p, inserts, by_id):
+    val = key = None
+    for c in inserts:
+        recv = show(c[5][0])
+        if by_id in recv and "VacantEntry" not in c[2]:
+            val = _unclone(c[5][-1])                      # by_id.insert(id, value)
+        elif "VacantEntry" in c[2]:
+            # ids.entry(key) .. vacant.insert(id): the key is the argument of entry()
+            for e in p.calls():
+                if e[2].endswith("::entry") and len(e[5]) == 2:
+                    key = _unclone(e[5][1])
+        else:
+            key = _unclone(c[5][1])                       # ids.insert(key, id)
+    return val is not None and key is not None and val == key
+
+
 def state_tables(an, rep):
     R = rep.rule("T11", "State::store_string / store_ref: occupied -> existing id, no mutation; vacant -> next() (pre-increment "
                         "by 1 from Default = 0, so ids start at 1), both maps updated with the same id; StringId/RefId::next "
@@ -1206,6 +1239,11 @@ def state_tables(an, rep):
                     ids = [" ".join(show(x) for x in (c[5][-1:] if "VacantEntry" in c[2] else c[5][1:])) for c in inserts]
                     okk = okk and all(idf in s for s in ids) and idf in show(ret[4][0])
                     okk = okk and any(by_id in show(c[5][0]) for c in inserts)
+                    if okk:
+                        # identity: the key under which the id is filed is the very value kept for that id (same term up to
+                        # clones and borrows) - a narrowed or re-derived key (data address only, a prefix, a hash) merges
+                        # distinct values
+                        okk = _same_entry(p, inserts, by_id)
                 R.check(okk, b.key, "vacant", "a new key must take the next id (after exactly one next()), insert it into both "
                         "tables and return it", None, sample={fn: "vacant -> next(); both tables; new id"})
         R.check(seen == {"Occupied", "Vacant"}, b.key, "rows", "rows: %s" % sorted(seen))
@@ -1562,6 +1600,28 @@ def header_reader(an, rep):
             R.check(not ins_opt and not ins_rem, b.key, "unknown", "unknown step must only record an empty region")
     for v in ("FieldAddedToNewChunk", "FieldMadeOptional", "FieldRemoved"):
         R.check(seen.get(v, 0) > 0, b.key, "coverage " + v, "arm %s not found" % v)
+    # rejections: every header the writer can produce is accepted.  The header reader fails only because a read / skip failed
+    # (propagated) or because a chunk size is negative; an error *built* anywhere else refuses histories that are legal
+    # (e.g. the same name removed twice: FieldMadeOptional(f) then FieldRemoved(f) is written as two FieldRemoved steps)
+    n_rej = 0
+    for p in walk.walk(b, core, max_paths=6000):
+        kind, what = outcome_of(p)
+        if p.outcome[0] != "return" or kind != "err":
+            continue
+        n_rej += 1
+        arm = None
+        conv_failed = False
+        for a in p.atoms():
+            c = a[1]
+            if c[0] == "discr" and any(n == "FieldAddedToNewChunk" for _, n in c[2]):
+                arm = walk.atom_variant(a) or "Unknown"
+            if c[0] == "discr" and "try_from" in show(c[1]) and "size" in show(c[1]) and walk.atom_variant(a) in ("Err", "Break"):
+                conv_failed = True
+            if c[0] == "bin" and c[1] in ("Lt", "Ge") and "size" in show(c[2]) and guards.rng(c[3]) == (0, 0):
+                conv_failed = conv_failed or (guards.truth(a[2]) == (c[1] == "Lt"))
+        R.check(arm == "FieldAddedToNewChunk" and conv_failed, b.key, "rejection", "the header reader refuses a header in the %s "
+                "arm for a reason other than a failed read or a negative chunk size (%s)" % (arm, what), None,
+                sample={"rejection": "negative chunk size only"})
     # the final aggregate takes stored_version from the parameter
     for p in walk.walk(b, core, max_paths=6000):
         if p.outcome[0] == "return" and p.returns_ok():
